@@ -16,6 +16,8 @@
 """
 import ast
 
+from sa.repo import AnalysisError
+
 from sa.astutil import walk_body, walk_local, dotted, norm, callee_attr, Resolver
 from sa.cfg import CFG, node_exprs
 from sa.facts import guard_facts
@@ -209,10 +211,49 @@ def _bounded_copy_rules(ck, m, q, fn):
               "the NUL-terminating write `%s` can exceed the length argument: %s" % (norm(w)[:70], "; ".join(bad)))
 
 
+_R6_FIXTURE = """
+def lost_carry(a_low, b_low, a_high, b_high):
+    low = (a_low + b_low) & 0xffffffff
+    high = (a_high + b_high + (low >> 32)) & 0xffffffff
+    return low, high
+
+def kept_carry(a_low, b_low, a_high, b_high):
+    low = a_low + b_low
+    high = (a_high + b_high + (low >> 32)) & 0xffffffff
+    return low & 0xffffffff, high
+"""
+
+
+def _dead_shift_rules(ck):
+    """R6: a carry / high part obtained with `x >> k` must be able to be non-zero: if x is provably narrower than k bits (it was
+    masked first) the shift is always 0 and the carry never reaches the high half - 64-bit arithmetic done on two 32-bit halves
+    silently loses every overflow of the low half."""
+    from sa.bitrange import dead_shifts
+    ck.rule("R6", "no right shift in the OS helpers is provably always zero (a carry taken from an already masked value)", floor=1)
+    fx = ast.parse(_R6_FIXTURE)
+    for node in ast.walk(fx):
+        for ch in ast.iter_child_nodes(node):
+            ch._parent = node
+    got = dict((f.name, len(dead_shifts(f))) for f in fx.body)
+    if got != {"lost_carry": 1, "kept_carry": 0}:
+        raise AnalysisError("R6 self-check on the built-in fixture failed: %r" % (got,))
+    ck.ob("R6", "fixture:lost-carry-detected", True, "rules/c47.py:_R6_FIXTURE", "")
+    for rel in FILES:
+        if not ck.repo.exists(rel):
+            continue
+        m = ck.repo.mod(rel)
+        for q, fn in sorted(m.funcs.items()):
+            for (n, b) in dead_shifts(fn):
+                ck.ob("R6", "%s:%s" % (q, norm(n)[:40]), False, m.where(n),
+                      "`%s` is always 0: its operand has at most %d significant bit(s) (it was masked before the shift), so the carry / "
+                      "high part it is meant to extract is lost" % (norm(n)[:60], b))
+
+
 def run(ck):
+    _dead_shift_rules(ck)
     ck.rule("R4", "a slice bound `args.N - k` is reached only where args.N >= k", floor=4)
     ck.rule("R5", "a NUL-terminated copy bounded by a guest length writes at most that many characters", floor=5)
-    ck.rule("R1", "the two halves of a 64-bit argument enter a sum with the same sign; results are returned low then high", floor=6)
+    ck.rule("R1", "the two halves of a 64-bit argument enter a sum with the same sign; results are returned low then high", floor=3)
     ck.rule("R2", "a find/rfind result is tested against -1 before it is used in arithmetic", floor=3)
     ck.rule("R3", "a counter is compared with the length before it first indexes the buffer", floor=1)
 
